@@ -18,7 +18,7 @@ P = {
  "C03": ("validateRowRanges (error iff some range is malformed), mergeSimpleRanges/mergeRowRanges (union preserved for an arbitrary rigid key, output ordered and disjoint, closed/open bounds via the successor lemma that is proved each run), chunkBuilder.add (shape of the chunk stream, commit flag only on the last chunk, result iff something appended), ReadRows/SampleRowKeys: NotFound/InvalidArgument, limit accounting, lock discipline incl. the lock reversal while sending", "6 C03, 10"),
  "C04": ("validateConds proved against the complete truth table of the property for all int64 generations/metagenerations; parseConds parses each parameter or fails; status mapping; every store mutation of every handler requires a successful validateConds on the object read inside the same key-lock section (protocol ghosts gcsReadEpoch/gcsReadObj/gcsValidEpoch on GetMeta/validateConds/Add/UpdateMeta/Delete/locks.Run)", "6 C04, 10"),
  "C05": ("includeCell (column/value/timestamp range semantics with open/closed/unset ends, regex kinds), filterCells, modifyCell, newRegexp/escapeUTF, scrubFam/scrubRow fully discharged; filterRow: argument validation (InvalidArgument for false pass/block, <2 sub-filters, negative counts, bad sample probability), cells-per-column/row limit and offset semantics, chain via the recursive contract, valid leaf filters never fail, row-key regex, panic-freedom outside the Interleave merge; the Interleave merge loops and some frame clauses are listed as not claimed; regexp semantics trusted; the data-dependent validation of per-cell filter arguments is an open known finding", "6 C05, 10"),
- "C06": ("Sequential / thread-modular kernel only: failure atomicity (updateRow unreachable on error paths, commit counter), reads are private deep-fresh copies (rowFresh), lock discipline (guard/balance/lock-order obligations), and the read protocol: a row is written back only in the critical section (epoch) in which it was read and only the row object that was read (protocol ghosts btReadEpoch/btReadRow); the gc write-back after lock reversal violates it and is an open known finding; the linearizability theorem itself is argued from these premises, not machine-checked", "6 C06, 7.2, 10"),
+ "C06": ("Sequential / thread-modular kernel only: failure atomicity (updateRow unreachable on error paths, commit counter), reads are private deep-fresh copies (rowFresh), lock discipline (guard/balance/lock-order obligations), and the read protocol: a row is written back only in the critical section (epoch) in which the thread's last store read began, only a row object allocated in that critical section (protocol ghost btReadEpoch, csStart()), and never while an iteration over the rows is in progress (btIterating); the gc write-back after lock reversal violates it and is an open known finding; the linearizability theorem itself is argued from these premises, not machine-checked", "6 C06, 7.2, 10"),
  "C07": ("Lock-discipline kernel only: every object mutation inside locks.Run on the key of the mutated object, check-then-act in one key critical section (validated protocol, see C04), memstore registry and bucket trees accessed under their mutexes (guarded_by), nil-bucket race fixed; file-store torn reads and history-level serialisability are not decided", "6 C07, 7.2, 10"),
  "C08": ("Persistence protocol at request boundaries: a successful CreateTable / ModifyColumnFamilies persists the live definition exactly once and a failed one not at all (ghost counter btMetaOps on Storage.Create/SetTableMeta), tmp file then rename order in SetTableMeta, Open does not delete and Create does, engines' row writes are a single Put/Delete of that row's key (ghost trace of leveldb operations); crash points inside leveldb/Create/Clear are not decided; DeleteTable persistence is an open known finding", "6 C08, 7.2, 10"),
  "C09": ("Both stores verified against one Store interface contract (behavioural subtyping, impl-variant units) plus their own contracts: metadata scrubbing/initialisation, URLs as functions of (base, bucket, name), file paths as functions of (dir, bucket, name), Add/UpdateMeta/Copy/Delete effects, file store statelessness via a ghost count of file-system mutations; the walk-order difference is an open known finding", "6 C09, 10"),
